@@ -1,4 +1,4 @@
-(* Lines without '<': inert for every stage and phase of the engine. *)
+(* Lines without "<<<": inert for every stage and phase of the engine. *)
 From Coq Require Import String Ascii List Bool Arith Lia.
 From KV Require Import Lib.Str Lib.StrOps Lib.ODict Gen.Tags Gen.Pipeline Model.Engine Model.EngineSM Model.EngineDomain
                        Model.EngineDomain16 Spec.RefExpand Spec.RefExpand16
@@ -8,14 +8,11 @@ Import ListNotations.
 Open Scope string_scope.
 Open Scope list_scope.
 
-(* ---------------------------------------------------------------- lines without '<' *)
-Definition tagfree (s : string) : bool := no_char LT s.
+(* ---------------------------------------------------------------- lines without "<<<" *)
+Definition tagfree (s : string) : bool := no3 s.
 
 Lemma tagfree_findall s : tagfree s = true -> findall s = [].
-Proof.
-  induction s as [|c s IH]; [reflexivity|]. unfold tagfree. cbn [no_char]. intros H. apply andb_prop in H as [Hc Hs].
-  apply negb_true_iff in Hc. cbn [findall]. rewrite (match_tag_nolt c s Hc). apply IH. exact Hs.
-Qed.
+Proof. apply no3_findall. Qed.
 
 Lemma tagfree_hasTag s : tagfree s = true -> hasTag s = false.
 Proof. intros H. unfold hasTag. rewrite (tagfree_findall s H). reflexivity. Qed.
@@ -23,18 +20,14 @@ Proof. intros H. unfold hasTag. rewrite (tagfree_findall s H). reflexivity. Qed.
 Lemma tagfree_specific s t : tagfree s = true -> hasSpecificTag s t = false.
 Proof. intros H. unfold hasSpecificTag. rewrite (tagfree_hasTag s H). reflexivity. Qed.
 
-Definition starts_lt (p : string) : bool := match p with String c _ => Ascii.eqb c LT | EmptyString => false end.
+Definition starts3 (p : string) : bool := prefixb OPEN3 p.
 
-Lemma tagfree_contains p s : starts_lt p = true -> tagfree s = true -> contains p s = false.
-Proof.
-  intros Hp. destruct p as [|a p]; [discriminate|]. cbn [starts_lt] in Hp. apply Ascii.eqb_eq in Hp. subst a.
-  induction s as [|c s IH]; [reflexivity|]. unfold tagfree. cbn [no_char]. intros H. apply andb_prop in H as [Hc Hs].
-  apply negb_true_iff in Hc. cbn [contains prefixb]. rewrite Ascii.eqb_sym, Hc. cbn [andb orb]. apply IH. exact Hs.
-Qed.
+Lemma tagfree_contains p s : starts3 p = true -> tagfree s = true -> contains p s = false.
+Proof. apply no3_contains. Qed.
 
-Lemma init_tags_start_lt : forallb (fun tv => starts_lt (fst tv)) init_state_tags = true.
+Lemma init_tags_start_lt : forallb (fun tv => starts3 (fst tv)) init_state_tags = true.
 Proof. vm_compute. reflexivity. Qed.
-Lemma first_filter_start_lt : forallb starts_lt first_filter_tags = true.
+Lemma first_filter_start_lt : forallb starts3 first_filter_tags = true.
 Proof. vm_compute. reflexivity. Qed.
 
 (* a tag-free line is inert for every stage whatever its tags are *)
@@ -62,20 +55,20 @@ Proof.
   apply andb_prop in H as [Hv H]. destruct (String.eqb n k); [exists v; auto|]. apply IH; assumption.
 Qed.
 
-Lemma closed_copy_nolg tb : forall l, line_ok l = true -> forallb (closed_seg (map fst tb)) l = true ->
-  forallb (fun kv : string * string => no_lg (snd kv)) tb = true -> no_lg (render_body (map (subst16 tb) l)) = true.
+Lemma closed_copy_litok tb : forall l, line_ok l = true -> forallb (closed_seg (map fst tb)) l = true ->
+  forallb (fun kv : string * string => no_lg (snd kv)) tb = true -> lit_ok (render_body (map (subst16 tb) l)) = true.
 Proof.
   induction l as [|g l IH]; intros Hl Hc Hv; [reflexivity|].
   cbn [line_ok forallb] in Hl, Hc. apply andb_prop in Hl as [Hg Hl]. fold (line_ok l) in Hl. apply andb_prop in Hc as [Hcg Hc].
-  cbn [map render_body]. rewrite no_lg_app, (IH Hl Hc Hv), andb_true_r.
+  cbn [map render_body]. apply lit_ok_app; [|exact (IH Hl Hc Hv)].
   destruct g as [s|n [d|]]; cbn [closed_seg] in Hcg; [exact Hg|discriminate|].
-  cbn [subst16]. destruct (lookup_some_ok n tb Hv Hcg) as (v & Ev & Hvv). rewrite Ev. exact Hvv.
+  cbn [subst16]. destruct (lookup_some_ok n tb Hv Hcg) as (v & Ev & Hvv). rewrite Ev. exact (no_lg_lit_ok v Hvv).
 Qed.
 
 Lemma copy_tagfree tb l : line_ok l = true -> forallb (closed_seg (map fst tb)) l = true ->
   forallb (fun kv : string * string => no_lg (snd kv)) tb = true -> tagfree (render_line (map (subst16 tb) l)) = true.
 Proof.
-  intros Hl Hc Hv. unfold tagfree, render_line. rewrite no_char_app, (no_lg_no_lt _ (closed_copy_nolg tb l Hl Hc Hv)). reflexivity.
+  intros Hl Hc Hv. unfold tagfree, render_line. apply no3_app; [apply lit_ok_no3; exact (closed_copy_litok tb l Hl Hc Hv)|reflexivity].
 Qed.
 
 
